@@ -1333,8 +1333,7 @@ static bool execute(Plan &plan) {
             drive<char16_t>(plan, cx, executed);
         else
             drive<char32_t>(plan, cx, executed);
-        if (!qsim::run_aborted() && qsim::live_lib_blocks() != 0)
-            qsim::report("leak", "value", std::to_string(qsim::live_lib_blocks()) + " library block(s) still allocated after every object was destroyed");
+        if (!qsim::run_aborted()) qsim::check_leaks("value");
     });
     return executed >= 5;
 }
